@@ -348,7 +348,8 @@ class Gen:
         if want in ("int",):
             return ["int", self.draw(any_ints)]
         if want == "float":
-            return ["float", self.draw(st.sampled_from(["1.5", "0.25", "-2.0", "10.125", "3.0", "1e-2", "2.5E+1", "1.50"]))]
+            return ["float", self.pick(["1.5", "0.25", "-2.0", "10.125", "3.0", "1e-2", "2.5E+1", "1.50", "1.0e16", "2.5e20",
+                                        "1e-7", "-0.0", "123456789.125"])]
         if want == "num":
             return self.literal(self.pick(["int", "int", "float"]))
         if want in ("str", "datefmt", "date", "key"):
@@ -599,7 +600,7 @@ class Gen:
               allow_array: bool = True) -> list[Any]:
         depth = self.cfg.expr_depth if depth is None else depth
         if self.cfg.arrays and allow_array and want in ("any", "list") and self.p(0.08):
-            left: list[Any] = ["array", [self.prim("scalar", 0) for _ in range(self.i(2, 4))]]
+            left: list[Any] = ["array", [self.prim("scalar", 0) for _ in range(self.i(1, 4))]]
             have = "list"
         else:
             left = self.prim(want if not self.cfg.filters or self.p(0.5) else "any", depth)
@@ -674,10 +675,15 @@ class Gen:
         if depth > 0 and r < 3:
             op = self.pick(["and", "or"])
             return [op, self.cond(depth - 1), self.cond(depth - 1)]
-        if depth > 0 and r == 3:
+        if r == 3 and depth >= 0:
+            # `not` binds tighter than and/or: also generated at the leaves and under groups
             return ["not", self.cond(depth - 1)]
-        if depth > 0 and r == 4:
-            return ["grp", self.cond(depth - 1)]
+        if r == 4 and depth >= 0:
+            # an explicit group may hold any boolean expression, e.g. (not a) and b, (a or b) and c
+            return ["grp", self.cond(depth if depth > 0 and self.p(0.5) else depth - 1)]
+        if depth >= 0 and r == 5 and self.p(0.3):
+            # a comparison whose operand is a grouped boolean expression: (a and b) == c
+            return ["cmp", self.pick(["==", "!="]), ["grp", self.cond(depth - 1)], self.prim("bool", 0)]
         if r < 9:
             ty = self.pick(["int", "int", "str", "num", "bool", "any"])
             op = self.pick(["==", "!=", "<", ">", "<=", ">="] if ty in ("int", "str", "num") else ["==", "!="])
@@ -868,7 +874,7 @@ class Gen:
             return {"t": k, "name": self.pick(["c", "d", "n", "v"]), "wc": self.wc()}
         if k == "cycle":
             items = [self.prim("scalar", 0) for _ in range(self.i(1, 3))]
-            grp = self.pick([None, None, "g", "h", "a b"]) if c.quoted_names else self.pick([None, "g", "h"])
+            grp = self.pick([None, None, "g", "h", "a b", ""]) if c.quoted_names else self.pick([None, "g", "h"])
             return {"t": "cycle", "group": grp, "items": items, "wc": self.wc()}
         if k == "liquid":
             self.in_liquid = True
